@@ -850,6 +850,15 @@ func GenCase(prop string, seed uint64, thorough bool) *Case {
 		}
 		c.Clients[0] = append(ops, Op{K: "compact"}, Op{K: "settle"})
 	}
+	if prop == "C11" && len(c.Clients) == 1 && r.p(0.1) {
+		// commits that fail: manifest syncs fail for a while, so that explicit
+		// transactions and batches that are routed through a transaction
+		// (larger than the write buffer) fail to commit; afterwards everybody
+		// must still get answers, and a failed commit is all or nothing
+		c.Knobs.WriteBuffer = r.pick(512, 1024)
+		c.Knobs.DisableLargeBatchTx = false
+		c.Faults = append(c.Faults, &simdisk.Fault{Kind: "err", Op: []string{simdisk.OpSync, simdisk.OpWrite}[r.intn(2)], FT: int(storage.TypeManifest), Nth: r.rng(2, 12), Count: r.rng(3, 9), Epoch: -1})
+	}
 	switch c.Scenario {
 	case "crash":
 		g.crashPlan(c)
